@@ -64,6 +64,21 @@ structure CRel (mi : Rdfcanon.Issuer β) (si : Spec.RDFC10.Issuer β) : Prop whe
   look : ∀ b, assoc mi.known b = assoc si.issued b
   order : mi.order = si.issued.map (·.1)
   counter : si.counter = mi.order.length
+  nodup : (si.issued.map (·.1)).Nodup
+  /-- the issued identifiers are prefix ++ 0, prefix ++ 1, … in issue order -/
+  seq : si.issued.map (·.2) = (List.range si.counter).map (fun k => si.pfx ++ decimal k)
+  cpfx : si.pfx = Spec.RDFC10.c14nPrefix
+
+theorem assoc_none_not_mem (l : List (β × Str)) (b : β) (h : assoc l b = none) : b ∉ l.map (·.1) := by
+  induction l with
+  | nil => simp
+  | cons e rest ih =>
+    obtain ⟨k, v⟩ := e
+    by_cases hk : k = b
+    · simp [assoc, hk] at h
+    · simp only [assoc, hk, if_false] at h
+      simp only [List.map_cons, List.mem_cons, not_or]
+      exact ⟨fun hh => hk hh.symm, ih h⟩
 
 theorem CRel.getIfKnown {mi : Rdfcanon.Issuer β} {si : Spec.RDFC10.Issuer β} (h : CRel mi si) (b : β) :
     mi.getIfKnown b = si.get? b := h.look b
@@ -88,7 +103,7 @@ theorem CRel.get {mi : Rdfcanon.Issuer β} {si : Spec.RDFC10.Issuer β} (h : CRe
       simp only [Option.map_some, Option.some.injEq] at hkb
       simp only [hl]
       refine ⟨hkb.symm, ?_⟩
-      refine ⟨⟨sp, rfl, hpfx, hnext, hk⟩, h.look, h.order, h.counter⟩
+      refine ⟨⟨sp, rfl, hpfx, hnext, hk⟩, h.look, h.order, h.counter, h.nodup, h.seq, h.cpfx⟩
   | none =>
     rw [hs] at hl
     rw [hl] at hkb
@@ -97,7 +112,7 @@ theorem CRel.get {mi : Rdfcanon.Issuer β} {si : Spec.RDFC10.Issuer β} (h : CRe
     | none =>
       simp only [hl]
       refine ⟨by rw [hpfx, h.counter, hnext], ?_⟩
-      refine ⟨⟨_, rfl, hpfx, by simp [hnext], ?_⟩, ?_, by simp [h.order], by simp [h.counter]⟩
+      refine ⟨⟨_, rfl, hpfx, by simp [hnext], ?_⟩, ?_, by simp [h.order], by simp [h.counter], ?_, ?_, h.cpfx⟩
       · intro b'
         simp only
         rw [assoc_cons, assoc_cons_nat]
@@ -107,10 +122,45 @@ theorem CRel.get {mi : Rdfcanon.Issuer β} {si : Spec.RDFC10.Issuer β} (h : CRe
       · intro b'
         simp only
         rw [assoc_cons, assoc_append_of_none _ _ _ _ hs, h.look b', hpfx, h.counter, hnext]
+      · simp only [List.map_append, List.map_cons, List.map_nil]
+        rw [List.nodup_append]
+        refine ⟨h.nodup, by simp, ?_⟩
+        intro a ha b' hb'
+        simp only [List.mem_singleton] at hb'
+        subst hb'
+        intro hab
+        subst hab
+        exact assoc_none_not_mem _ _ hs ha
+      · simp only [List.map_append, List.map_cons, List.map_nil, List.range_succ, h.seq]
+
+/-- On a node that already has an identifier, `GetBlankNodeString` returns it and changes nothing. -/
+theorem CRel.get_known {mi : Rdfcanon.Issuer β} {si : Spec.RDFC10.Issuer β} (h : CRel mi si) (b : β) (id : Str)
+    (hk : si.get? b = some id) : mi.get b = (id, mi) := by
+  obtain ⟨sp, hsp, hpfx, hnext, hkn⟩ := h.str
+  have hl := h.look b
+  have hkb := hkn b
+  unfold Spec.RDFC10.Issuer.get? at hk
+  rw [hk] at hl
+  rw [hl] at hkb
+  unfold Rdfcanon.Issuer.get
+  rw [hsp]
+  simp only
+  unfold Rdfcanon.Int64SP.get
+  cases hq : assoc sp.known b with
+  | none => rw [hq] at hkb; simp at hkb
+  | some i =>
+    rw [hq] at hkb
+    simp only [Option.map_some, Option.some.injEq] at hkb
+    simp only [hl]
+    rw [← hkb]
+    congr 1
+    cases mi
+    simp_all
 
 theorem CRel.init : CRel (Rdfcanon.newCanonicalIssuer : Rdfcanon.Issuer β)
     (Spec.RDFC10.Issuer.new Spec.RDFC10.c14nPrefix) :=
-  ⟨⟨_, rfl, rfl, rfl, fun _ => rfl⟩, fun _ => rfl, rfl, rfl⟩
+  ⟨⟨_, rfl, rfl, rfl, fun _ => rfl⟩, fun _ => rfl, rfl, rfl, by simp [Spec.RDFC10.Issuer.new],
+    by simp [Spec.RDFC10.Issuer.new], rfl⟩
 
 /-- `issueAll` on both sides. -/
 theorem CRel.issueAll {mi : Rdfcanon.Issuer β} {si : Spec.RDFC10.Issuer β} (h : CRel mi si) (l : List β) :
